@@ -26,4 +26,4 @@ Deliverables in {out}/ :
   - patch.diff : `git -C {wt} diff` of the library change ONLY (do not include the demo test in it; no test files edited),
   - zz_demo_test.go (or demo/main.go) : the demonstration,
   - notes.md : which clause of the property is broken, what exactly is needed for it to manifest (input / schedule / sequence), why the existing tests do not notice, and the exact commands you ran with their outcome (existing suite with change: pass; demo with change: FAIL; demo without change: PASS).
-Verify all three outcomes yourself before finishing. Leave the worktree with your change applied and the demo file copied out to {out}/ (the demo file may also remain in the worktree, untracked). Keep the change small (a few lines). Final answer: a 5-line summary.""")
+Verify all three outcomes yourself before finishing. Do NOT use `git stash` (the stash is shared between worktrees of this repository and other agents are working in sibling worktrees): to test on the unchanged source use `git diff > /tmp/x.diff; git apply -R /tmp/x.diff; ...; git apply /tmp/x.diff` with a file name unique to you. Leave the worktree with your change applied and the demo file copied out to {out}/ (the demo file may also remain in the worktree, untracked). Keep the change small (a few lines). Final answer: a 5-line summary.""")
